@@ -164,6 +164,15 @@ def check_case(case, ctx):
                     "post-state-in-callback",
                     f"{where}: inside update() next indices {inside[2]} (model {model.next}), machine list {inside[3][m]}",
                 )
+                # cached queries as seen from inside the callback vs the model
+                ctx.check(
+                    list(inside[9]) == model.ready()
+                    and list(inside[10]) == sorted(model.unscheduled())
+                    and list(inside[11]) == sorted(model.scheduled()),
+                    "stale-queries-in-callback",
+                    f"{where}: inside update() raw ready {inside[9]}, unscheduled {inside[10]}, scheduled {inside[11]}; "
+                    f"model ready {model.ready()}, scheduled {sorted(model.scheduled())}",
+                )
             if hist is not None:
                 hist[1].append(want_sop)
             for x in recs:
